@@ -407,7 +407,10 @@ pub fn start_server(plan: &Plan) {
                     dsim::with(|w| {
                         w.vfs.insert(CONFIG_PATH.to_string(), dsim::VFile { data: text.into_bytes() });
                     });
-                    (vec!["roughenough-server".to_string(), CONFIG_PATH.to_string()], BTreeMap::new())
+                    // `leftover_env`: the settings are still exported in the environment as well
+                    // (a deployment that moved from ENV to a file and never cleaned up)
+                    let env = if plan.p("leftover_env") != 0 { config_env(&spec) } else { BTreeMap::new() };
+                    (vec!["roughenough-server".to_string(), CONFIG_PATH.to_string()], env)
                 }
             };
             dsim::with(|w| {
